@@ -1,6 +1,7 @@
 package main
 
 import (
+	"bytes"
 	"errors"
 	"fmt"
 	"io"
@@ -231,6 +232,30 @@ func evalC15Copy(limit, streamLen, accept, chunk int) Result {
 		got += len(b)
 		if src.pos > limit || got > limit {
 			direct = fail("nested-over-limit", "LimitReader(src, %d) read through three LimitReader(_, %d) and then directly: %d bytes taken from src, %d delivered", limit, part, src.pos, got)
+		}
+	}
+	// 4. sources of the standard library's own reader types (they have Len, Size, WriteTo …) that
+	// are shorter than the limit when LimitReader is called and get more data afterwards
+	if direct == "ok" && limit > 0 && limit < 1<<20 {
+		data := make([]byte, limit+8)
+		for i := range data {
+			data[i] = byte(i % 251)
+		}
+		short := min(limit-1, 2)
+		buf := bytes.NewBuffer(append([]byte{}, data[:short]...))
+		lrb := ioutil.LimitReader(buf, uint64(limit))
+		buf.Write(data[short:])
+		gotB, errB := io.ReadAll(lrb)
+		sr := strings.NewReader(string(data[:short]))
+		lrs := ioutil.LimitReader(sr, uint64(limit))
+		sr.Reset(string(data))
+		gotS, errS := io.ReadAll(lrs)
+		var le *ioutil.LimitError
+		switch {
+		case len(gotB) > limit || len(gotS) > limit:
+			direct = fail("grown-source-over-limit", "limit %d: a *bytes.Buffer / *strings.Reader source that got more data after LimitReader was made delivered %d / %d bytes", limit, len(gotB), len(gotS))
+		case !errors.As(errB, &le) || !errors.As(errS, &le):
+			direct = fail("grown-source-no-limit-error", "limit %d: reading %d bytes of a source that grew ended with %v / %v, not with a *LimitError", limit, limit+8, errB, errS)
 		}
 	}
 	impl := "within=1 prefix=1"
